@@ -121,11 +121,15 @@ func c05Families(tier string) []explore.Family {
 	Lr := L - 1
 	fams = append(fams, explore.Family{Name: "raw-body", Count: seqCount(K, Lr), Run: func(i int64, r *explore.Rec) {
 		s := str(i)
-		for _, form := range []struct{ pre, post string }{{"{% raw %}", "{% endraw %}"}, {"x{%raw%}", "{%endraw%}y"}, {"{%- raw -%}", "{%- endraw -%}"}} {
+		for _, form := range []struct{ pre, post string }{{"{% raw %}", "{% endraw %}"}, {"x{%raw%}", "{%endraw%}y"}, {"{%- raw -%}", "{%- endraw -%}"}, {" \n{% raw %}", "{% endraw %}\t "}} {
 			src := form.pre + s + form.post
 			r.Eval()
 			o := Render(c05.eng, src, map[string]any{})
 			want := strings.Trim(form.pre, "{%-raw} ") + s + strings.Trim(form.post, "{%-endraw} ")
+			if strings.HasPrefix(form.pre, " ") {
+				// literal whitespace around the block (no hyphens anywhere): kept, also right after a render that ended in a trim marker
+				want = " \n" + s + "\t "
+			}
 			r.Class("raw/" + o.Class())
 			if o.Panic != nil || o.Err != nil || o.Out != want {
 				r.Violation(c05BodyKey("P4:raw-body-verbatim", src, "endraw"), map[string]any{"template": src}, strconv.Quote(want), o.String())
